@@ -208,6 +208,47 @@ Lemma inv1_mk : forall cap t1 hs1,
   (forall h, In h (map h_id hs1) -> h < t_next t1) -> inv1 cap (mkSt t1 hs1).
 Proof. intros. unfold inv1, hids; cbn. auto. Qed.
 
+Lemma purge_expire_tinv : forall cap l p q H nx,
+  tinv cap l H nx ->
+  tinv cap (match find_idx q (purge (length l) p l) with
+            | Some i => upd_nth i (set_expired true) (purge (length l) p l)
+            | None => purge (length l) p l
+            end) H nx.
+Proof.
+  intros cap l p q H nx Ht.
+  assert (Hp : tinv cap (purge (length l) p l) H nx).
+  { destruct (purge_sub (length l) p l) as [gone Hg].
+    eapply tinv_tail. eapply tinv_perm; [exact Hg|exact Ht]. }
+  destruct (find_idx _ _); auto. apply tinv_upd_nth; auto. apply keeps_set_expired.
+Qed.
+
+Lemma t_remove_set_tinv : forall cap t ids keep H nx,
+  tinv cap (t_sess t) H nx -> tinv cap (t_sess (t_remove_set ids keep t)) H nx.
+Proof.
+  intros cap t ids keep H nx Ht. unfold t_remove_set. cbn [t_sess].
+  destruct keep as [k|].
+  - apply purge_expire_tinv; auto.
+  - destruct (purge_sub (length (t_sess t)) (in_set ids None) (t_sess t)) as [gone Hg].
+    eapply tinv_tail. eapply tinv_perm; [exact Hg|exact Ht].
+Qed.
+
+Lemma ex_add_inv1 : forall cap mx s id pending now,
+  inv1 cap s -> next_of s + 2 <= UID_MAX ->
+  let s' := fst (ex_add mx s id pending now) in
+  inv1 cap s' /\ next_of s <= next_of s' /\ next_of s' <= next_of s + 2.
+Proof.
+  intros cap mx s id pending now Hi Hb. unfold next_of in *. unfold ex_add.
+  destruct (t_lookup id (tb s)) as [x|]; [|cbn; split; [auto|lia]].
+  destruct (pending && s_reserved x); [cbn; split; [auto|lia]|].
+  destruct (t_get id now (tb s)) as [t1|] eqn:Hg; [|cbn; split; [auto|lia]].
+  destruct (s_expired x).
+  { destruct (inv1_get _ _ _ _ _ Hi Hg) as [H1 H2]. cbn. split; auto. lia. }
+  destruct (x_add mx (s_exch x) (if pending then XPending else XOwned)) as [[x' i]|].
+  + destruct (inv1_get_upd _ _ _ _ _ (set_exch x') Hi Hg (keeps_set_exch x')) as [H1 H2].
+    cbn. split; auto. lia.
+  + destruct (inv1_get _ _ _ _ _ Hi Hg) as [H1 H2]. cbn. split; auto. lia.
+Qed.
+
 Theorem step_inv1 : forall cap mx s o,
   inv1 cap s -> next_of s + 2 <= UID_MAX ->
   let s' := fst (step cap mx s o) in
@@ -295,15 +336,7 @@ Proof.
     cbn. split; [|lia]. apply inv1_tbl; auto; [|cbn; lia]. cbn.
     apply (t_remove_pase_tinv cap (tb s) keep). apply Hi.
   - (* OExAdd *)
-    destruct (t_lookup id (tb s)) as [x|]; [|cbn; split; [auto|lia]].
-    destruct (pending && s_reserved x); [cbn; split; [auto|lia]|].
-    destruct (t_get id now (tb s)) as [t1|] eqn:Hg; [|cbn; split; [auto|lia]].
-    destruct (s_expired x).
-    { destruct (inv1_get _ _ _ _ _ Hi Hg) as [H1 H2]. cbn. split; auto. lia. }
-    destruct (x_add mx (s_exch x) (if pending then XPending else XOwned)) as [[x' i]|].
-    + destruct (inv1_get_upd _ _ _ _ _ (set_exch x') Hi Hg (keeps_set_exch x')) as [H1 H2].
-      cbn. split; auto. lia.
-    + destruct (inv1_get _ _ _ _ _ Hi Hg) as [H1 H2]. cbn. split; auto. lia.
+    apply ex_add_inv1; auto.
   - (* OExAccept *)
     destruct (t_lookup id (tb s)) as [x|]; [|cbn; split; [auto|lia]].
     destruct (nth_error (s_exch x) xi) as [[[]|]|]; try (cbn; split; [auto|lia]).
@@ -330,6 +363,15 @@ Proof.
       destruct (t_get id now (tb s)) as [t1|] eqn:Hg; [|cbn; split; [auto|lia]].
       destruct (inv1_get_upd _ _ _ _ _ (xset xi None) Hi Hg (keeps_xset _ _)) as [H1 H2].
       cbn. split; auto. lia.
+  - (* ORxExch *)
+    pose proof (ex_add_inv1 cap mx s id true now Hi Hb) as [H1 [H2 H3]]. unfold next_of in *.
+    destruct (ex_add mx s id true now) as [s1 r]. cbn [fst] in H1, H2, H3.
+    destruct r; try (cbn; split; [auto|lia]).
+    destruct (c =? E_NOSPACE_EXCH); [|cbn; split; [auto|lia]].
+    cbn. rewrite (proj2 (tinv_t_remove cap _ id _ _ (proj1 H1))). split; [|lia]. apply inv1_remove; auto.
+  - (* ORemoveSet *)
+    cbn. split; [|lia]. apply inv1_tbl; auto; [|cbn; lia]. cbn.
+    apply (t_remove_set_tinv cap (tb s) ids keep). apply Hi.
 Qed.
 
 Theorem run_inv1 : forall cap mx ops s,
